@@ -273,6 +273,24 @@ Proof. split; [exact PeanoNat.Nat.eqb_eq|vm_compute; reflexivity]. Qed.
 Example C13_n_only_through_min_example : Gen.MdiffIdx.ac_npre 9223372036854775807 7 3 = 4.
 Proof. reflexivity. Qed.
 
+(* Control skeleton, as far as the translator sees it: in New, AddContext, findContext and
+   UnifyChunks every if/for statement is an if (3, 4, 2 and 9 of them; the loops are range loops,
+   anchored by their range expressions), and the switch of New lists OpDrop, OpCopy, OpReplace,
+   OpEmit in this order.  An inserted loop, a dropped or added condition shifts these. *)
+Theorem C13_skeleton :
+  (Gen.MdiffIdx.new_isfor0, Gen.MdiffIdx.new_isfor1, Gen.MdiffIdx.new_isfor2) = (false, false, false) /\
+  (Gen.MdiffIdx.ac_isfor0, Gen.MdiffIdx.ac_isfor1, Gen.MdiffIdx.ac_isfor2, Gen.MdiffIdx.ac_isfor3) = (false, false, false, false) /\
+  (Gen.MdiffIdx.fc_isfor0, Gen.MdiffIdx.fc_isfor1) = (false, false) /\
+  (Gen.MdiffIdx.uc_isfor0, Gen.MdiffIdx.uc_isfor1, Gen.MdiffIdx.uc_isfor2, Gen.MdiffIdx.uc_isfor3, Gen.MdiffIdx.uc_isfor4,
+   Gen.MdiffIdx.uc_isfor5, Gen.MdiffIdx.uc_isfor6, Gen.MdiffIdx.uc_isfor7, Gen.MdiffIdx.uc_isfor8)
+  = (false, false, false, false, false, false, false, false, false) /\
+  new_switch_cases = [0; 1; 2; 3] /\
+  (forall b, Gen.MdiffIdx.uc_end_emit b = b) /\ (forall b, Gen.MdiffIdx.uc_start_emit b = b).
+Proof. repeat split. Qed.
+Print Assumptions C13_skeleton.
+Example C13_skeleton_example : Gen.MdiffIdx.uc_fuse true true = true.
+Proof. reflexivity. Qed.
+
 (* The hypotheses are satisfiable by a non-trivial input: Left=[a a b] Right=[a b b] with the
    script slice.EditScript returns for it; two chunks after New, merged by Unify at n = 2. *)
 Example C13_new_example :
